@@ -35,7 +35,6 @@ import sourmash  # noqa: E402
 from sourmash import MinHash, SourmashSignature  # noqa: E402
 from sourmash import compare as smc  # noqa: E402
 from sourmash.logging import set_quiet  # noqa: E402
-from sourmash.sketchcomparison import FracMinHashComparison  # noqa: E402
 
 set_quiet(True)
 
@@ -72,13 +71,10 @@ def pairwise(kind, ds, a, b):
         return a.avg_containment(b, downsample=ds)
     if kind == "avgani":
         return a.avg_containment_ani(b, downsample=ds)
-    if kind == "avganicmp":
-        # what compare_serial_avg_containment(return_ani=True) evaluates for a pair (it ignores `downsample`)
-        return FracMinHashComparison(a.minhash, b.minhash).avg_containment_ani
     raise KeyError(kind)
 
 
-KINDS = ("sim0", "sim1", "jani", "cont", "cani", "maxc", "maxani", "avgc", "avgani", "avganicmp")
+KINDS = ("sim0", "sim1", "jani", "cont", "cani", "maxc", "maxani", "avgc", "avgani")
 FUNC_KINDS = {
     "serial": ("sim0", "sim1", "jani"), "parallel": ("sim0", "sim1", "jani"), "allpairs": ("sim0", "sim1", "jani"),
     "containment": ("cont", "cani"), "max": ("maxc", "maxani"), "avg": ("avgc", "avgani"),
@@ -180,7 +176,8 @@ def main():
                 func, kind, ds = w[1], w[2], int(w[3])
                 jobs = None if w[4] == "-" else int(w[4])
                 perm = [] if w[5] == "-" else [int(x) for x in w[5].split(",")]
-                need = ("avganicmp", 0) if (func, kind) == ("avg", "avgani") else (kind, ds)
+                # compare_serial_avg_containment(return_ani=True) evaluates containment_ani in both directions
+                need = ("cani", ds) if (func, kind) == ("avg", "avgani") else (kind, ds)
                 ok = (func in FUNC_KINDS and kind in FUNC_KINDS[func] and need in tabs
                       and all(0 <= p < len(sigs) for p in perm)
                       and ((jobs is None) == (func not in ("parallel", "allpairs")) or func == "allpairs"))
